@@ -22,6 +22,10 @@ KIND_DEF = {
 }
 
 
+def nospace(n):
+    return ast.unparse(n).replace(" ", "")
+
+
 def ssym(n):
     return ("ssym", n)
 
@@ -122,6 +126,8 @@ def run(idx, rep, tier):
                            + (f" [outside the grammar: {opaque_text(norm(t))}]" if ok is None else ""), detail="" if ok else "meaning", locs=[idx.loc(fi.module, r)])
             if fname == "mul" and "Any" in kb and "LinearOperator" in ka:
                 scalar_shape(idx, rep, rule)
+            if fname == "mul" and sc_names:
+                scalar_dtype(idx, rep, rule, next(iter(sc_names)), pb if a_scalar else pa)
 
     # ------------------------------------------------------------ 3. shape validation
     shape_validation(idx, rep)
@@ -218,6 +224,32 @@ def scalar_shape(idx, rep, rule):
                 ok = sh in cols if (sh in rows or sh in cols) else None
             rep.decide(ok, "rewrite-rule", rule.role + ":scalar-shape", f"scalar operator of shape {sh} is placed on the {side} of {a}" +
                        ("" if ok is not False else ": wrong square size for non-square operators"), detail="" if ok else "side", locs=[idx.loc(fi.module, c)])
+
+
+def scalar_dtype(idx, rep, rule, c, a):
+    """DTYPE: the scalar operator that represents c in c*A must be typed by something the scalar influences (the promoted dtype of
+    c and A).  Typed by the operator alone, 0.5 * (integer operator) is the zero operator and a complex scalar on a real operator
+    loses its imaginary part (or raises).  Forwarding the scalar to mul(<one part of A>, c) types it by that part alone, which is
+    narrower still than the composite's dtype."""
+    from sa.dtype import DType
+    fi = rule.func
+    dt = DType(idx, c)
+    for call in df.calls(fi.node):
+        r = idx.resolve_expr(fi.module, call.func, fi)
+        loc = [idx.loc(fi.module, call)]
+        if r is not None and r.kind == "class" and r.val.name == "ScalarMul" and call.args and c in df.names_in(call.args[0]):
+            b = df.bind_call(call, ["c", "shape", "dtype", "device"])
+            d = b.get("dtype")
+            src = dt.flat(dt.eval_in(fi, d)) if d is not None else frozenset()
+            ok = "arg" in src
+            rep.decide(ok, "scalar-dtype", rule.role, f"the scalar operator is typed by `{ast.unparse(d) if d is not None else '?'}` (sources {sorted(src) or ['-']})" +
+                       ("" if ok else f": `{c}` is cast to the operator's dtype, so a fractional scalar on an integer operator becomes 0 and a complex scalar on a real operator is truncated / rejected"),
+                       detail="" if ok else "cast-to-operator", locs=loc)
+        elif r is not None and r.kind == "funcs" and r.val[-1].name == "mul" and len(call.args) == 2:
+            other = call.args[0] if c in df.names_in(call.args[1]) else (call.args[1] if c in df.names_in(call.args[0]) else None)
+            if other is not None and isinstance(other, ast.Subscript) and nospace(other.value) in (f"{a}.Ms", ):
+                rep.refuted("scalar-dtype", rule.role + ":part", f"the scalar is forwarded to `{ast.unparse(call)}`: it is typed by the single part `{ast.unparse(other)}` although the "
+                            f"composite's dtype is the promotion over all parts ({a}.Ms): a scalar that fits {a}.dtype but not that part's dtype is truncated", detail="cast-to-part", locs=loc)
 
 
 def norm_idx(txt):
